@@ -614,6 +614,27 @@ func replayAPI(checker string) func(rc *runCtx, h *harness, v *interp.Violation,
 			return false, "not realised: " + strings.Join(notes, "; ")
 		}
 		sub := apiSubjects[checker]
+		// variants with a *local* namesake next to a real import of the package:
+		// the package-level shadow `var <pkg> gsxT_<pkg>` becomes a parameter of
+		// the enclosing function and the file imports (and uses) the real package
+		if sub[0] == "pkg" {
+			base := sub[1][strings.LastIndex(sub[1], "/")+1:]
+			use := map[string]string{"flag": "ErrHelp", "regexp": "MustCompile", "sort": "Ints", "filepath": "Join"}[base]
+			shadow := "var " + base + " gsxT_" + base + "\n"
+			var extra []string
+			for _, src := range sources {
+				if use == "" || !strings.Contains(src, shadow) || !strings.Contains(src, "func gsxF() ") {
+					continue
+				}
+				v2 := strings.Replace(src, shadow, "", 1)
+				v2 = strings.Replace(v2, "func gsxF() ", "func gsxF("+base+" gsxT_"+base+") ", 1)
+				v2 = strings.Replace(v2, "package cand\n", "package cand\n\nimport \""+sub[1]+"\"\n\nvar _ = "+base+"."+use+"\n", 1)
+				if ok, _ := typeCheck(v2); ok {
+					extra = append(extra, v2)
+				}
+			}
+			sources = append(sources, extra...)
+		}
 		files := map[string]string{}
 		for i, s := range sources {
 			files[fmt.Sprintf("cand%03d_x.go", i)] = s
@@ -632,6 +653,13 @@ func replayAPI(checker string) func(rc *runCtx, h *harness, v *interp.Violation,
 				out, _ := json.MarshalIndent(vf, "", " ")
 				os.WriteFile(file, out, 0o644)
 				return true, "real checker + go/types: " + r.Detail + "\n" + files[base]
+			}
+		}
+		if os.Getenv("GSX_DEBUG_REALISE") != "" {
+			for i, s := range sources {
+				if i < 3 || i >= len(sources)-3 {
+					fmt.Fprintf(os.Stderr, "--- realisation %d\n%s\n", i, s)
+				}
 			}
 		}
 		return false, fmt.Sprintf("%d realisations: no diagnostic on a namesake (%v)", len(results), st)
